@@ -484,6 +484,7 @@ def check_spec(spec):
         ck.bad("serialize-gen0", "raise-%s" % type(e).__name__, "bytes(pe) raised %r" % (e,))
         return ck.vs, st
     if not table_guard(ck, "serialize-gen0", p, b0, model):
+        st["stopped"] = 1      # the bytes are not handed to the parser: the rest of the oracle is not evaluated
         return ck.vs, st
     try:
         q = PE(b0)
@@ -604,7 +605,8 @@ def _shard(args):
     n = nt = 0
     refused = {}
     layouts = set()
-    counters = {"addr_points": 0, "writes": 0, "relocs_done": 0, "beyond": 0, "bytes_stable": 0, "bytes_unstable": 0}
+    counters = {"addr_points": 0, "writes": 0, "relocs_done": 0, "beyond": 0, "bytes_stable": 0, "bytes_unstable": 0,
+                "stopped_at_serialisation_guard": 0}
     reloc_modes = {}
     sample = None
     per_sig = {}
@@ -620,6 +622,9 @@ def _shard(args):
                 vs.append(x)
         if st["refused"]:
             refused[st["refused"]] = refused.get(st["refused"], 0) + 1
+            continue
+        if st.get("stopped"):
+            counters["stopped_at_serialisation_guard"] += 1
             continue
         layouts.add(st["layout"])
         for key in ("addr_points", "writes", "relocs_done", "beyond"):
